@@ -1,10 +1,27 @@
 import Driver.Util
 import ClairModel.Model.Locks
+import ClairModel.Model.LockCallers
 
+/-
+  Line protocol of C20.
+
+  lock operations by the harness itself (the lock machine, as before):
+    try k p | lock t k p | retest t | release g | cancel p | ctx g | close
+  the callers of the lock sources (Libindex.Index, Manager.Run, Updater.fetchOne):
+    begin index|try k p   -> cid n
+    cacq c | cretest c    -> acq g | parked | busy
+    check c               -> body | skip
+    leave c r             -> ok
+    done c                -> released | noop
+    ret c                 -> ret nil|err|can|-
+    bctx c                -> live | dead
+  which lock source an entry point uses:
+    select libindex|libvuln|updater given|nil -> given | local | rejected
+-/
 namespace Driver.C20
-open ClairModel.Locks
+open ClairModel ClairModel.LockCallers
 
-def parse (l : String) : Option Op :=
+def parseRaw (l : String) : Option Locks.Op :=
   match Driver.words l with
   | ["try", k, p] => do pure (.tryLock (← k.toNat?) (← p.toNat?))
   | ["lock", t, k, p] => do pure (.lock (← t.toNat?) (← k.toNat?) (← p.toNat?))
@@ -12,9 +29,23 @@ def parse (l : String) : Option Op :=
   | ["release", g] => do pure (.release (← g.toNat?))
   | ["cancel", p] => do pure (.cancelParent (← p.toNat?))
   | ["ctx", g] => do pure (.ctx (← g.toNat?))
+  | ["close"] => some .close
   | _ => none
 
-def render : Out → String
+def parse (l : String) : Option Op :=
+  match Driver.words l with
+  | ["begin", "index", k, p] => do pure (.begin .index (← k.toNat?) (← p.toNat?))
+  | ["begin", "try", k, p] => do pure (.begin .tryer (← k.toNat?) (← p.toNat?))
+  | ["cacq", c] => do pure (.acquire (← c.toNat?))
+  | ["cretest", c] => do pure (.retest (← c.toNat?))
+  | ["check", c] => do pure (.check (← c.toNat?))
+  | ["leave", c, r] => do pure (.leave (← c.toNat?) (← r.toNat?))
+  | ["done", c] => do pure (.done (← c.toNat?))
+  | ["ret", c] => do pure (.ret (← c.toNat?))
+  | ["bctx", c] => do pure (.bctx (← c.toNat?))
+  | _ => (parseRaw l).map .raw
+
+def renderLk : Locks.Out → String
   | .acquired g => s!"acq {g}"
   | .busy => "busy"
   | .parked => "parked"
@@ -25,13 +56,42 @@ def render : Out → String
   | .ok => "ok"
   | .bad => "bad"
 
+def render : Out → String
+  | .cid c => s!"cid {c}"
+  | .lk o => renderLk o
+  | .body => "body"
+  | .skip => "skip"
+  | .ok => "ok"
+  | .retd 0 => "ret nil"
+  | .retd 1 => "ret err"
+  | .retd 2 => "ret can"
+  | .retd _ => "ret -"
+  | .ctxLive true => "live"
+  | .ctxLive false => "dead"
+  | .bad => "bad"
+
+def selectLine (l : String) : Option String :=
+  match Driver.words l with
+  | ["select", e, g] =>
+    let ent : Option Entry := match e with
+      | "libindex" => some .libindex | "libvuln" => some .libvuln | "updater" => some .updater | _ => none
+    let giv : Option Bool := match g with | "given" => some true | "nil" => some false | _ => none
+    match ent, giv with
+    | some e, some g =>
+      some (match select e g with | .given => "given" | .localSrc => "local" | .rejected => "rejected")
+    | _, _ => none
+  | _ => none
+
 def stepLine (s : State) (l : String) : State × String :=
   if l == "reset" then (init, "ok") else
-  match parse l with
-  | none => (s, "bad-op")
-  | some op => let (s', o) := step s op; (s', render o)
+  match selectLine l with
+  | some o => (s, o)
+  | none =>
+    match parse l with
+    | none => (s, "bad-op")
+    | some op => let (s', o) := step s op; (s', render o)
 
 end Driver.C20
 
 def main : IO Unit := do
-  Driver.foldLines (← IO.getStdin) (← IO.getStdout) ClairModel.Locks.init Driver.C20.stepLine
+  Driver.foldLines (← IO.getStdin) (← IO.getStdout) ClairModel.LockCallers.init Driver.C20.stepLine
